@@ -172,6 +172,16 @@ type Node struct {
 	Parent *Node
 	Via    Step
 	Seed   string
+	// SeedSteps (root nodes only): the trace from the empty directory that produced this state
+	SeedSteps []Step
+}
+
+// Root returns the seed node of n.
+func (n *Node) Root() *Node {
+	for n.Parent != nil {
+		n = n.Parent
+	}
+	return n
 }
 
 func (n *Node) Abs() *Abs {
@@ -327,9 +337,13 @@ func (x *Explorer) addViolations(vs []Violation, n *Node, st *Step) {
 func (x *Explorer) fullTrace(n *Node, st *Step) []Step {
 	var t []Step
 	if n != nil {
-		for _, sd := range x.Spec.Seeds {
-			if sd.Name == n.Seed {
-				t = append(t, sd.Steps...)
+		if r := n.Root(); r.SeedSteps != nil {
+			t = append(t, r.SeedSteps...)
+		} else {
+			for _, sd := range x.Spec.Seeds {
+				if sd.Name == n.Seed {
+					t = append(t, sd.Steps...)
+				}
 			}
 		}
 		t = append(t, n.Trace()...)
@@ -384,7 +398,7 @@ func (x *Explorer) Run() {
 		if len(states) > 0 {
 			st = states[len(states)-1]
 		}
-		n := &Node{State: st, Seed: sd.Name}
+		n := &Node{State: st, Seed: sd.Name, SeedSteps: sd.Steps}
 		if _, dup := x.seen[st.Key()]; !dup {
 			x.seen[st.Key()] = n
 			frontier = append(frontier, n)
